@@ -2128,6 +2128,49 @@ after `let body = comp_body(bp)?;`:
 after `let end = bp.current_offset();`:
     proof { lemma_off_mono(bp.toks(), old(bp).cur(), bp.cur()); }
 @*/
+/// C05, step loop: a component event that spans exactly the tokens [pc, c) covers them
+pub proof fn lemma_step_comp<'i>(toks: Seq<Token>, pc: int, c: int, mid: Seq<Event<'i>>, ev: Event<'i>, n0: int)
+    requires toks_ok(toks), 0 <= pc < c <= toks.len(), 0 <= n0 <= mid.len(),
+        covered(toks, pc, mid, n0), comp_at(ev, cur_off(toks, pc), cur_off(toks, c)),
+    ensures covered(toks, c, mid.push(ev), n0)
+{
+    lemma_grown_push(mid, ev);
+    lemma_covered_grown(toks, pc, mid, mid.push(ev), n0);
+    assert forall|i: int| 0 <= i < c implies tok_covered(#[trigger] toks[i], mid.push(ev), n0) by {
+        if i >= pc {
+            lemma_mono(toks, pc, i); lemma_mono(toks, i, c - 1);
+            lemma_off_mono(toks, pc, c);
+            let k = mid.len() as int;
+            assert(mid.push(ev)[k] == ev);
+            assert(ev_covers(mid.push(ev)[k], cs(toks[i]), toks[i].span.e()));
+        }
+    }
+}
+/// C05, step loop: the text built from the tokens [pc, c) covers them (it is queued unless it has no fragment at all)
+pub proof fn lemma_step_text<'i>(toks: Seq<Token>, pc: int, c: int, sub: Seq<Token>, mid: Seq<Event<'i>>, text: Text<'i>, n0: int, new: Seq<Event<'i>>)
+    requires toks_ok(toks), 0 <= pc < c <= toks.len(), 0 <= n0 <= mid.len(), sub == toks.subrange(pc, c),
+        covered(toks, pc, mid, n0),
+        text.frags().len() > 0 ==> new == mid.push(Event::Text(text)),
+        text.frags().len() == 0 ==> new == mid,
+        forall|k: int| 0 <= k < sub.len() && content_kind(sub[k].kind) && cs(sub[k]) < sub[k].span.e() ==>
+            text.frags().len() > 0 && text.start_spec() <= cs(#[trigger] sub[k]) && sub[k].span.e() <= text.end_spec(),
+    ensures covered(toks, c, new, n0)
+{
+    if text.frags().len() > 0 { lemma_grown_push(mid, Event::Text(text)); } else { lemma_grown_refl(mid); }
+    lemma_covered_grown(toks, pc, mid, new, n0);
+    assert forall|i: int| 0 <= i < c implies tok_covered(#[trigger] toks[i], new, n0) by {
+        if i >= pc {
+            let t = toks[i];
+            assert(sub[i - pc] == t);
+            if content_kind(t.kind) && cs(t) < t.span.e() {
+                assert(text.frags().len() > 0);
+                let k = new.len() - 1;
+                assert(new[k] == Event::Text(text));
+                assert(ev_covers(new[k], cs(t), t.span.e()));
+            }
+        }
+    }
+}
 /*@ fn src/parser/step.rs parse_step
 tags C03 C04 C05
 attr #[verifier::spinoff_prover]
@@ -2167,17 +2210,8 @@ after `bp.event(ev)`:
             ; proof {
                 lemma_grown_push(mid.evs(), ev);
                 lemma_grown_trans(bp.evs(), mid.evs(), old(bp).evs());
-                lemma_covered_grown(bp.toks(), pre.cur(), mid.evs(), bp.evs(), n0);
-                assert forall|i: int| 0 <= i < bp.cur() implies tok_covered(#[trigger] bp.toks()[i], bp.evs(), n0) by {
-                    if i >= pre.cur() {
-                        lemma_mono(bp.toks(), pre.cur(), i); lemma_mono(bp.toks(), i, bp.cur() - 1);
-                        lemma_off_mono(bp.toks(), pre.cur(), bp.cur());
-                        let k = bp.evs().len() - 1;
-                        assert(bp.evs()[k] == ev);
-                        assert(ev_covers(bp.evs()[k], cs(bp.toks()[i]), bp.toks()[i].span.e()));
-                    }
-                }
-                assert(covered(bp.toks(), bp.cur(), bp.evs(), n0));
+                reveal(toks_ok);
+                lemma_step_comp(bp.toks(), pre.cur(), bp.cur(), mid.evs(), ev, n0);
                 lemma_off_mono(bp.toks(), 0, pre.cur()); lemma_off_mono(bp.toks(), pre.cur(), bp.cur());
                 lemma_ordered_push(mid.evs(), ev, n0, bp.toks()[0].span.s(), pre.off(), bp.off());
             }
@@ -2200,27 +2234,14 @@ after `bp.event(Event::Text(text));`:
 after `bp.event(Event::Text(text));<NL>            }`:
             proof {
                 lemma_grown_refl(mid2.evs());
-                lemma_covered_grown(bp.toks(), pre.cur(), mid2.evs(), bp.evs(), n0);
-                assert forall|i: int| 0 <= i < bp.cur() implies tok_covered(#[trigger] bp.toks()[i], bp.evs(), n0) by {
-                    if i >= pre.cur() {
-                        let t = bp.toks()[i];
-                        assert(tokens@[i - pre.cur()] == t);
-                        if content_kind(t.kind) && cs(t) < t.span.e() {
-                            assert(text.frags().len() > 0);
-                            let k = bp.evs().len() - 1;
-                            assert(bp.evs()[k] == Event::Text(text));
-                            assert(ev_covers(bp.evs()[k], cs(t), t.span.e()));
-                        }
-                    }
-                }
-                assert(covered(bp.toks(), bp.cur(), bp.evs(), n0));
+                reveal(toks_ok);
+                lemma_step_text(bp.toks(), pre.cur(), bp.cur(), tokens@, mid2.evs(), text, n0, bp.evs());
                 lemma_off_mono(bp.toks(), 0, pre.cur()); lemma_off_mono(bp.toks(), pre.cur(), bp.cur());
                 lemma_tok(bp.toks(), pre.cur()); lemma_tok(bp.toks(), bp.cur() - 1);
                 assert(tokens@[0] == bp.toks()[pre.cur()]); assert(tokens@.last() == bp.toks()[bp.cur() - 1]);
                 if bp.evs().len() > mid2.evs().len() {
                     lemma_ordered_push(mid2.evs(), Event::Text(text), n0, bp.toks()[0].span.s(), pre.off(), bp.off());
                 } else {
-                    lemma_grown_refl(mid2.evs());
                     assert(ev_ordered(bp.evs(), n0, bp.toks()[0].span.s(), bp.off())) by {
                         lemma_ordered_weaken(mid2.evs(), n0, bp.toks()[0].span.s(), pre.off(), bp.off());
                     }
